@@ -95,20 +95,36 @@ func shrinkLines(lines []string, fails func([]string) bool) []string {
 				}
 			}
 			// shrink the source script
-			if k, arg := splitTok(f[head]); k == "src" && arg != "-" {
+			if k, arg := splitTok(f[head]); (k == "src" || k == "fromit" || k == "slice" || k == "chan") && arg != "-" {
 				toks := strings.Split(arg, ",")
+				mk := func(ts []string) string {
+					if len(ts) == 0 {
+						return k + "=-"
+					}
+					return k + "=" + strings.Join(ts, ",")
+				}
 				small := vlib.Shrink(toks, func(ts []string) bool {
 					g := append([]string{}, f...)
-					g[head] = "src=" + strings.Join(ts, ",")
+					g[head] = mk(ts)
 					cand := append([]string{}, cur...)
 					cand[bi] = strings.Join(g, " ")
 					return fails(cand)
 				})
-				f[head] = "src=" + strings.Join(small, ",")
+				f[head] = mk(small)
 				cand := append([]string{}, cur...)
 				cand[bi] = strings.Join(f, " ")
 				if fails(cand) {
 					cur = cand
+				}
+				// vlib.Shrink keeps at least one token: try the empty script as well
+				if len(small) == 1 {
+					g := append([]string{}, f...)
+					g[head] = mk(nil)
+					cand := append([]string{}, cur...)
+					cand[bi] = strings.Join(g, " ")
+					if fails(cand) {
+						cur, f = cand, g
+					}
 				}
 			}
 		}
